@@ -471,7 +471,7 @@ def r3_lag_lead_table(R) -> None:
         else:
             R.check(got in vs, g.q, f'row:{shown}:{got}', f'{shown} -> {vs[0]}',
                     f'row {shown} yields `{got}`, expected `{vs[0]}`' + (' (the implicit 0 keeps a lead-only variable from producing a negative lag length)' if k == ('int', 'int') else ''),
-                    where=g.fi.where)
+                    where=g.fi.where, decided=True)
 
 
 def r4_double_definition(R) -> None:
@@ -706,6 +706,25 @@ def _check_lag_spec(R, q, nm, agg, floor, v, sym_param, where) -> None:
                 f'the fallback is chosen by `{text(nis_test)[:60]}`, the aggregate runs over `{text(nis)[:60]}`', where=where)
     # NIS = [s for s in symbols if s.type not in (FUNCTION, KEYWORD, VERBATIM)]
     from fsa.match import nnf_atoms
+
+    def _parts(e_):
+        # `[s for s in X if A] + [s for s in X if B]`: for an aggregate (min / max) the order does not matter, so the sum of
+        # selections from one list by one-atom type tests is the selection by `s.type in (...)`
+        if isinstance(e_, ast.BinOp) and isinstance(e_.op, ast.Add):
+            l_, r_ = _parts(e_.left), _parts(e_.right)
+            return None if l_ is None or r_ is None else l_ + r_
+        if isinstance(e_, ast.ListComp) and len(e_.generators) == 1 and text(e_.elt) == text(e_.generators[0].target) and len(e_.generators[0].ifs) == 1:
+            c_ = e_.generators[0].ifs[0]
+            if isinstance(c_, ast.Compare) and len(c_.ops) == 1 and isinstance(c_.ops[0], ast.Eq) and text(c_.left) == f'{text(e_.generators[0].target)}.type':
+                return [(text(e_.generators[0].target), text(e_.generators[0].iter), c_.comparators[0], e_)]
+        return None
+
+    ps_ = _parts(nis) if isinstance(nis, ast.BinOp) else None
+    if ps_ and len({(a_, b_) for (a_, b_, _c, _d) in ps_}) == 1 and len({text(c_) for (_a, _b, c_, _d) in ps_}) == len(ps_):
+        first = ps_[0][3]
+        nis = ast.ListComp(elt=first.elt, generators=[ast.comprehension(target=first.generators[0].target, iter=first.generators[0].iter, is_async=0, ifs=[
+            ast.Compare(left=ast.parse(f'{ps_[0][0]}.type', mode='eval').body, ops=[ast.In()], comparators=[ast.Tuple(elts=[c_ for (_a, _b, c_, _d) in ps_], ctx=ast.Load())])])])
+        ast.fix_missing_locations(nis)
     if not (isinstance(nis, ast.ListComp) and len(nis.generators) == 1 and text(nis.elt) == text(nis.generators[0].target)):
         raise Unsupported(f'{q}: the symbols `{nm}` is taken over are `{text(nis)[:70]}`')
     ng = nis.generators[0]
@@ -737,7 +756,8 @@ def _check_lag_spec(R, q, nm, agg, floor, v, sym_param, where) -> None:
     excl = members - included
     R.check(text(ng.iter) == sym_param and excl == NON_INDEXED, q, f'non-indexed:{nm}:{sorted(excl)}', 'lags/leads are taken over everything except functions, keywords, verbatim',
             f'`{nm}` is taken over symbols of `{text(ng.iter)}` excluding {sorted(excl)}, expected all of `{sym_param}` except {sorted(NON_INDEXED)} '
-            f'(parameters and errors written with an index carry lags/leads too)', where=where)
+            f'(parameters and errors written with an index carry lags/leads too)', where=where,
+            decided=(text(ng.iter) == sym_param))      # the members were enumerated: which types are left out is a value, not a shape
 
 
 def r5_definition(R) -> None:
@@ -816,7 +836,7 @@ def r5_definition(R) -> None:
     if got is not None:
         want = list(FIELDS.values())
         R.check(got == want, fq, 'twin-numbering', 'Fortran variable numbers follow ENDOGENOUS + EXOGENOUS + PARAMETERS + ERRORS',
-                f'variables are numbered over `{[str(g_)[:40] for g_ in got]}`', where=ft.fi.where)
+                f'variables are numbered over `{[str(g_)[:40] for g_ in got]}`', where=ft.fi.where, decided=True)
 
 
 def numbering_order(R, ft, fse) -> Optional[List[str]]:
@@ -1014,6 +1034,19 @@ def r7_default_range(R) -> None:
             falsy = [d for d in f.assigns_to(nm) if isinstance(d.ast.value, ast.BoolOp) and isinstance(d.ast.value.op, ast.Or)
                      and text(d.ast.value.values[0]) == nm]
             falsy += [d for d in f.assigns_to(nm) if f.holds(d.id, nm, False) and not f.holds(d.id, f'{nm} is None')]
+            inline_falsy = []
+            for n_ in f.cfg.nodes:
+                if n_.ast is None or n_.kind != 'stmt':
+                    continue
+                for x in ast.walk(n_.ast):
+                    if isinstance(x, ast.BoolOp) and isinstance(x.op, ast.Or) and len(x.values) == 2 and 'span' in text(x.values[1]):
+                        first = x.values[0]
+                        if text(first) == nm or f.etext(n_.id, first) == nm:
+                            inline_falsy.append(x)
+            if inline_falsy and not falsy:
+                R.violation(q, f'default-on-falsy:{nm}', f'`{text(inline_falsy[0])[:60]}` applies the default to every falsy `{nm}` (the period label 0, an empty '
+                            f'string), not only to None: solve({nm}=0) silently solves from the default period', where=f.fi.where)
+                continue
             if not ds and falsy:
                 R.violation(q, f'default-on-falsy:{nm}', f'`{text(falsy[0].ast)[:60]}` applies the default to every falsy `{nm}` (the period label 0, an empty '
                             f'string), not only to None: solve({nm}=0) silently solves from the default period', where=f.where(falsy[0]))
@@ -1058,10 +1091,24 @@ def r7_default_range(R) -> None:
                 pass
         if R.require(q, len(cands), 'range(loc(start), loc(end) + 1)', fi=f.fi, pred=lambda x: is_call(x, 'range')):
             n, r = cands[0]
+            # `D if start is None else start` written in place is `start` after the default has been applied (the default
+            # itself is checked above)
+            import copy as _copy
+
+            class _Dflt(ast.NodeTransformer):
+                def visit_IfExp(self_, node):
+                    self_.generic_visit(node)
+                    for nm in ('start', 'end'):
+                        if text(node.test) == f'{nm} is None' and text(node.orelse) == nm:
+                            return ast.Name(id=nm, ctx=ast.Load())
+                        if text(node.test) == f'{nm} is not None' and text(node.body) == nm:
+                            return ast.Name(id=nm, ctx=ast.Load())
+                    return node
+            r = ast.fix_missing_locations(_Dflt().visit(_copy.deepcopy(r)))
             ok = text(r.args[0]) == 'self._locate_period_in_span(start)' and affine(r.args[1]) == affine(expr('self._locate_period_in_span(end) + 1')) \
                 and (len(r.args) == 2 or is_const(r.args[2], 1))
             R.check(ok, q, 'range:' + text(r), 'positions run from loc(start) to loc(end) inclusive', f'`{text(r)}` is not range(loc(start), loc(end) + 1)',
-                    where=f.where(n))
+                    where=f.where(n), decided=all(isinstance(x, (ast.Name, ast.Attribute, ast.Constant, ast.BinOp, ast.Call, ast.operator, ast.expr_context, ast.UnaryOp, ast.unaryop, ast.Subscript)) for x in ast.walk(r)))
 
 
 def run(R) -> None:
